@@ -616,9 +616,14 @@ def main(argv: list[str] | None = None) -> int:
         cov["exhaustive"] = bool(exhaustive)
     if hasattr(check, "coverage_extra"):
         try:
-            cov.update(check.coverage_extra(tier, total))
+            extra = check.coverage_extra(tier, total)
+            if extra.get("generator_floor_failures"):
+                floor_msgs += extra.pop("generator_floor_failures")
+                cov["generator_floor_failures"] = floor_msgs
+            cov.update(extra)
+            cov["label_histogram"] = dict(sorted(total.labels.items()))
         except Exception:
-            pass
+            traceback.print_exc()
     evidence = {
         "property_id": pid,
         "tier": tier,
